@@ -108,6 +108,8 @@ def main():
             meta = os.path.join(sd, name, "meta.json")
             if os.path.exists(meta):
                 mj = json.load(open(meta))
+                if mj.get("obsolete"):
+                    continue  # cannot be expressed on the current /repo any more (see meta.json)
                 if only and mj["property"] not in only:
                     continue
                 if a.mutant and name != a.mutant:
